@@ -17,7 +17,10 @@ CONSTANTS MaxSteps,      \* bound on the number of actions
                          \* for tlc -simulate, which needs a small set of initial states)
           Cfgs,          \* codes of the app-configuration values in play (subset of CfgDomain: 0 = no entry, 1 = "p:" None,
                          \* 2 = {}, 3 = [], 4 / 5 = mappings, 6 = list), see ReloadCore
-          Mask,          \* generator masks, one per known finding: "keep-lazy", "no-orphaning", "no-named", "no-bare-unconfigure"
+          Wrs,           \* write kinds in play for the app's main file (subset of WrDomain: what its code does with the object it
+                         \* finds as pyscript.app_config: 0 reads only, 1-3 add / overwrite / remove at load, 4-6 the same from its trigger,
+                         \* 7 / 8 add to a nested value at load / from its trigger)
+          Mask,          \* generator masks, one per known finding: "keep-lazy", "no-orphaning", "no-named", "no-bare-unconfigure", "no-nested-write"
           NamedArgs,     \* context names used by reload(global_ctx = name)
           Ignore,        \* post-condition clauses not checked by PostHolds (known findings of the intended mechanism)
           ReloadWeight   \* simulation only: number of copies of each Reload successor (tlc -simulate picks uniformly)
@@ -33,20 +36,21 @@ lastPost == live.post
 prev     == live.prev
 
 ImpChoices(p) == IF Graph = "dense" THEN {MaxImps(p)} ELSE SUBSET MaxImps(p)
+WrChoices(p)  == IF MainFile(p) THEN Wrs ELSE {0}
 InitChoices(p) == IF p \notin Univ THEN {Absent}
                   ELSE (IF Trees = "all" THEN {Absent} ELSE {}) \cup
-                       { [ex |-> TRUE, hash |-> FALSE, gen |-> 1, mtime |-> 1, imps |-> s] : s \in ImpChoices(p) }
+                       { [ex |-> TRUE, hash |-> FALSE, gen |-> 1, mtime |-> 1, imps |-> s, wr |-> w] : s \in ImpChoices(p), w \in WrChoices(p) }
 RECURSIVE Trees0(_)
 Trees0(ps) == IF ps = {} THEN { <<>> }
               ELSE LET p == CHOOSE q \in ps : TRUE
                    IN { (p :> r) @@ f : r \in InitChoices(p), f \in Trees0(ps \ {p}) }
 
-\* $TREES: [ [cfg |-> code in CfgDomain, files |-> << [p |-> path, imps |-> << targets >>] >>] ]
+\* $TREES: [ [cfg |-> code in CfgDomain, files |-> << [p |-> path, imps |-> << targets >>, wr |-> write kind] >>] ]
 JsonTrees == IF Trees = "json" THEN JsonDeserialize(IOEnv.TREES) ELSE <<>>
 TreeFiles(t) == [p \in PathSet |->
                   IF \E k \in 1..Len(t.files) : t.files[k].p = p
                   THEN LET e == t.files[CHOOSE k \in 1..Len(t.files) : t.files[k].p = p]
-                       IN [ex |-> TRUE, hash |-> FALSE, gen |-> 1, mtime |-> 1, imps |-> { e.imps[j] : j \in 1..Len(e.imps) }]
+                       IN [ex |-> TRUE, hash |-> FALSE, gen |-> 1, mtime |-> 1, imps |-> { e.imps[j] : j \in 1..Len(e.imps) }, wr |-> e.wr]
                   ELSE Absent]
 InitTree == IF Trees = "json" THEN \E k \in 1..Len(JsonTrees) : files = TreeFiles(JsonTrees[k]) /\ cfg = JsonTrees[k].cfg
             ELSE files \in Trees0(PathSet) /\ cfg \in Cfgs
@@ -55,7 +59,7 @@ Init == /\ InitTree /\ hdirs = {}
         /\ live = LET r == Mechanism(files, {}, cfg, NoCtx, 0, "", Flags)
                   IN [ctx |-> r.ctx, n |-> r.n, post |-> "ok", prev |-> [ctx |-> NoCtx, n |-> 0]]
         /\ steps = 0
-        /\ lastAct = [a |-> "init", cfg |-> cfg, tree |-> { [p |-> p, imps |-> files[p].imps] : p \in { q \in PathSet : files[q].ex } }]
+        /\ lastAct = [a |-> "init", cfg |-> cfg, tree |-> { [p |-> p, imps |-> files[p].imps, wr |-> files[p].wr] : p \in { q \in PathSet : files[q].ex } }]
 
 \* masks: the edit must not take the file tree to a place where a known finding applies
 LazyLoaded == LoadedIn(ctx) \ AutoCtx
@@ -64,6 +68,8 @@ MaskOk(F2, H2, G2) ==
   \* the app's main file (package form) stays loaded when the entry "p:" (None) is taken away
   /\ "no-bare-unconfigure" \in Mask => ~(G2 = 0 /\ ctx["apps.p"] # Unl /\ ctx["apps.p"].cfg = 0
                                           /\ ctx["apps.p"].path = "apps/p/__init__.py" /\ Vis(F2, H2, "apps/p/__init__.py"))
+  \* an app's main file whose code writes into a nested value of its settings never meets settings that have one
+  /\ "no-nested-write" \in Mask => ~(G2 = 6 /\ \E p \in PathSet : MainFile(p) /\ F2[p].ex /\ WrOp(F2[p].wr) = 4)
   /\ "no-orphaning" \in Mask => \A c \in LazyLoaded : ctx[c].path \in MayLoaded(World(F2, H2, G2)) \/ Discover(F2, H2, G2)[c].path = ""
 
 \* an edit as the last action of a bounded behaviour cannot be observed by any reload: not generated
@@ -73,10 +79,10 @@ Edit(act) == /\ steps + 1 < MaxSteps /\ steps' = steps + 1 /\ lastAct' = act
              /\ UNCHANGED live
 Fresh == steps + 2
 Modify(p) == /\ files[p].ex
-             /\ \E s \in ImpChoices(p), keep \in BOOLEAN :
-                  Edit([a |-> "modify", p |-> p, gen |-> Fresh, mtime |-> IF keep THEN files[p].mtime ELSE Fresh, imps |-> s])
+             /\ \E s \in ImpChoices(p), keep \in BOOLEAN, w \in WrChoices(p) :
+                  Edit([a |-> "modify", p |-> p, gen |-> Fresh, mtime |-> IF keep THEN files[p].mtime ELSE Fresh, imps |-> s, wr |-> w])
 Touch(p)  == files[p].ex /\ Edit([a |-> "touch", p |-> p, mtime |-> Fresh])
-Create(p) == ~files[p].ex /\ p \in Univ /\ \E s \in ImpChoices(p) : Edit([a |-> "create", p |-> p, gen |-> Fresh, mtime |-> Fresh, imps |-> s])
+Create(p) == ~files[p].ex /\ p \in Univ /\ \E s \in ImpChoices(p), w \in WrChoices(p) : Edit([a |-> "create", p |-> p, gen |-> Fresh, mtime |-> Fresh, imps |-> s, wr |-> w])
 Delete(p) == files[p].ex /\ Edit([a |-> "delete", p |-> p])
 HashRename(p) == files[p].ex /\ Edit([a |-> "hash", p |-> p])
 HashDir(d) == (\E p \in Univ : DirOf(p) = d) /\ Edit([a |-> "hashdir", d |-> d])
@@ -136,6 +142,23 @@ W_NoCfgValueChange  == ~(lastAct.a = "reload" /\ lastAct.arg = "" /\ cfg > 0 /\ 
                          /\ ctx["apps.p"].path = prev.ctx["apps.p"].path /\ ctx["apps.p"].gen = prev.ctx["apps.p"].gen)
 W_NoEmptyToEmpty    == ~(~W_NoCfgValueChange /\ ~Truthy(prev.ctx["apps.p"].cfg) /\ ~Truthy(ValOf(cfg)))
 
+\* what the app's code writes into pyscript.app_config is its own business: a loaded app whose variable no longer holds what
+\* it was handed (a write at load, or from its trigger) is left untouched by a default reload that discards something else
+W_NoWriterUntouched == ~(lastAct.a = "reload" /\ lastAct.arg = "" /\ prev.ctx["apps.p"] # Unl /\ prev.ctx["apps.p"].now # prev.ctx["apps.p"].seen
+                         /\ SameButStart(ctx["apps.p"], prev.ctx["apps.p"]) /\ Discarded(prev.ctx, ctx) # {} /\ lastPost = "ok")
+W_NoLateWriter      == ~(~W_NoWriterUntouched /\ ctx["apps.p"].wr >= 4)
+\* ... and the post-condition is sensitive to it: in the mechanism with the named deviation "cfg-shared" (Flags) the context
+\* carries the written value, which the statement rejects on the spot; at the next default reload the app, of which nothing
+\* changed, is discarded and re-executed
+F_SharedCfgNotCurrent == ~(lastAct.a = "reload" /\ ctx["apps.p"] # Unl /\ ctx["apps.p"].wr # 0 /\ ctx["apps.p"].cfg # ValOf(cfg)
+                           /\ lastPost = "executed-not-current")
+F_SharedCfgReexecuted == ~(lastAct.a = "reload" /\ lastAct.arg = "" /\ prev.ctx["apps.p"] # Unl /\ ctx["apps.p"].inst > prev.n
+                           /\ prev.ctx["apps.p"].path = ctx["apps.p"].path /\ prev.ctx["apps.p"].gen = ctx["apps.p"].gen
+                           /\ prev.ctx["apps.p"].mtime = ctx["apps.p"].mtime /\ prev.ctx["apps.p"].seen = ctx["apps.p"].seen
+                           /\ ctx["apps.p"].seen = ValOf(cfg) /\ Discarded(prev.ctx, ctx) \subseteq {"apps.p", "apps.p.h"})
+\* the finding of the current tree ("cfg-shallow"): an app that wrote into a NESTED value of its settings, of which nothing
+\* changed, is discarded and re-executed by a default reload
+F_ShallowCfgReexecuted == ~(~F_SharedCfgReexecuted /\ WrOp(prev.ctx["apps.p"].wr) = 4 /\ lastPost = "executed-not-current")
 \* all witnesses in one run (workers = 1): registers set by the invariant WitTrack, printed by the post-condition
 \* a diamond with a deeper module behind the join: d changed (n itself not), and some discarded context reaches
 \* n through two different direct imports (a -> m -> n -> d and a -> n -> d): the transitive-importer clause
@@ -146,17 +169,19 @@ W_NoDeepDiamond == ~(lastAct.a = "reload" /\ "modules.d" \in ChangedCtx(prev.ctx
                           Cardinality({ y \in prev.ctx[x].imports : "modules.n" \in TransImports(prev.ctx, y) \cup {y} }) >= 2)
 WitNames == << "W_NoImporterDiscard", "W_NoWidening", "W_NoUntouched", "W_NoLazyReload", "W_NoFailedLoad", "W_NoNamed",
                "F_ChangedNotDiscarded", "F_OrphanLoaded", "F_NotStarted", "F_NeededNotCurrent", "W_NoDeepDiamond",
-               "F_UnconfiguredAppKept", "W_NoEmptyCfgRemoved", "W_NoCfgValueChange", "W_NoEmptyToEmpty" >>
+               "F_UnconfiguredAppKept", "W_NoEmptyCfgRemoved", "W_NoCfgValueChange", "W_NoEmptyToEmpty",
+               "W_NoWriterUntouched", "W_NoLateWriter", "F_SharedCfgNotCurrent", "F_SharedCfgReexecuted", "F_ShallowCfgReexecuted" >>
 WitVal(k) == CASE k = 1 -> ~W_NoImporterDiscard [] k = 2 -> ~W_NoWidening [] k = 3 -> ~W_NoUntouched [] k = 4 -> ~W_NoLazyReload
                [] k = 5 -> ~W_NoFailedLoad [] k = 6 -> ~W_NoNamed [] k = 7 -> ~F_ChangedNotDiscarded [] k = 8 -> ~F_OrphanLoaded
                [] k = 9 -> ~F_NotStarted [] k = 10 -> ~F_NeededNotCurrent [] k = 11 -> ~W_NoDeepDiamond
                [] k = 12 -> ~F_UnconfiguredAppKept [] k = 13 -> ~W_NoEmptyCfgRemoved [] k = 14 -> ~W_NoCfgValueChange [] k = 15 -> ~W_NoEmptyToEmpty
+               [] k = 16 -> ~W_NoWriterUntouched [] k = 17 -> ~W_NoLateWriter [] k = 18 -> ~F_SharedCfgNotCurrent [] k = 19 -> ~F_SharedCfgReexecuted [] k = 20 -> ~F_ShallowCfgReexecuted
 ASSUME \A k \in 1..Len(WitNames) : TLCSet(k, FALSE)
 WitTrack  == \A k \in 1..Len(WitNames) : (lastAct.a = "reload" /\ WitVal(k)) => TLCSet(k, TRUE)
 WitReport == PrintT("INFO " \o ToJson([seen |-> { WitNames[k] : k \in { j \in 1..Len(WitNames) : TLCGet(j) } }]))
 
 Short(C) == { <<c, C[c].path, C[c].gen, C[c].inst, C[c].started>> : c \in LoadedIn(C) }
 Alias == [act |-> lastAct, cfg |-> cfg, hdirs |-> hdirs, post |-> lastPost,
-          present |-> { <<p, files[p].gen, files[p].mtime, files[p].hash, files[p].imps>> : p \in { q \in PathSet : files[q].ex } },
+          present |-> { <<p, files[p].gen, files[p].mtime, files[p].hash, files[p].imps, files[p].wr>> : p \in { q \in PathSet : files[q].ex } },
           before |-> Short(prev.ctx), loaded |-> Short(ctx)]
 =============================================================================
